@@ -13,17 +13,22 @@ theorem protocolPreimage_injective (sid sid' pid pid' ctx ctx' : Bytes)
     (hs : sid.length = sid'.length) (hp : pid.length < 2 ^ 64) (hp' : pid'.length < 2 ^ 64)
     (h : protocolPreimage sid pid ctx = protocolPreimage sid' pid' ctx') :
     sid = sid' ∧ pid = pid' ∧ ctx = ctx' := by
-  sorry
+  exact protocolPreimage_inj sid sid' pid pid' ctx ctx' hs hp hp' h
 
 /-- `resolveMatch` hands a stream for `hash` to exactly the local directives whose constraints
 admit the link and whose (protocol, context) hash is `hash`. -/
 theorem resolve_iff (H : Bytes → Bytes) (sid : Bytes) (ds : List Dir) (l : LinkView) (hash : Bytes) (d : Dir) :
     d ∈ resolve H sid ds l hash ↔ d ∈ ds ∧ admits d l = true ∧ protocolHash H sid d.pid d.ctx = hash := by
-  sorry
+  simp only [resolve, List.mem_filter, Bool.and_eq_true, decide_eq_true_eq]
 
 theorem offered_iff (H : Bytes → Bytes) (sid : Bytes) (ds : List Dir) (l : LinkView) (h : Bytes) :
     h ∈ offered H sid ds l ↔ ∃ d ∈ ds, admits d l = true ∧ protocolHash H sid d.pid d.ctx = h := by
-  sorry
+  simp only [offered, List.mem_map, List.mem_filter]
+  constructor
+  · rintro ⟨d, ⟨hd, ha⟩, he⟩
+    exact ⟨d, hd, ha, he⟩
+  · rintro ⟨d, hd, ha, he⟩
+    exact ⟨d, ⟨hd, ha⟩, he⟩
 
 /-- Two peers' solicitations `dA` (on A, link view `lA`) and `dB` (on B, view `lB`) are matched
 with each other: some hash is offered by both sides and resolves to `dA` on A and `dB` on B. -/
@@ -40,12 +45,26 @@ theorem matched_iff (H : Bytes → Bytes) (sid : Bytes) (dsA dsB : List Dir) (lA
       protocolPreimage sid dA.pid dA.ctx = protocolPreimage sid dB.pid dB.ctx) :
     MatchedWith H sid dsA dsB lA lB dA dB ↔
       (dA.pid = dB.pid ∧ dA.ctx = dB.ctx ∧ admits dA lA = true ∧ admits dB lB = true) := by
-  sorry
+  unfold MatchedWith
+  constructor
+  · rintro ⟨h, _, _, hrA, hrB⟩
+    rw [resolve_iff] at hrA hrB
+    obtain ⟨_, haA, hhA⟩ := hrA
+    obtain ⟨_, haB, hhB⟩ := hrB
+    have hpre := hcr (by unfold protocolHash at hhA hhB; rw [hhA, hhB])
+    obtain ⟨_, h1, h2⟩ := protocolPreimage_injective sid sid dA.pid dB.pid dA.ctx dB.ctx rfl hpA hpB hpre
+    exact ⟨h1, h2, haA, haB⟩
+  · rintro ⟨h1, h2, haA, haB⟩
+    refine ⟨protocolHash H sid dA.pid dA.ctx, ?_, ?_, ?_, ?_⟩
+    · rw [offered_iff]; exact ⟨dA, hA, haA, rfl⟩
+    · rw [offered_iff]; exact ⟨dB, hB, haB, by rw [h1, h2]⟩
+    · rw [resolve_iff]; exact ⟨hA, haA, rfl⟩
+    · rw [resolve_iff]; exact ⟨hB, haB, by rw [h1, h2]⟩
 
 /-- The constraint filter, spelled out. -/
 theorem admits_iff (d : Dir) (l : LinkView) :
     admits d l = true ↔ (d.peer = [] ∨ d.peer = l.remote) ∧ (d.transport = 0 ∨ d.transport = l.transport) := by
-  sorry
+  simp [admits, List.isEmpty_iff]
 
 /-- Non-vacuity: the classic boundary-ambiguous pair now has different preimages. -/
 example : protocolPreimage [9] [97, 98] [99] ≠ protocolPreimage [9] [97] [98, 99] := by
